@@ -36,7 +36,7 @@ def gen(rng, tier):
                 trees.append(g.tree(ntips=ntips, rooted=rng.random() < 0.2, maxdeg=rng.choice([2, 2, 3]), lenmode="all", supmode="none"))
         for op in ["compare", "weighted", "fbp", "tbe"]:
             threads = rng.choice([2, 3, 4, 16, k + 3])
-            bk = rng.choice(["none", "none", "err", "taxa"])
+            bk = rng.choice(["none", "none", "err", "taxa", "errtree"])
             case = {"op": Sym(op), "ref": T(ref), "trees": [T(t) for t in trees], "threads": threads,
                     "badkind": Sym(bk), "badposs": sorted(rng.sample(range(k), rng.choice([1, 1, 2, 3, min(k, 5), k]))), "tips": rng.random() < 0.5}
             out.append({"sx": sx(case), "meta": {"op": op, "threads": threads, "bad": bk, "ntrees": k, "nbad": len(case["badposs"]) if bk != "none" else 0}})
